@@ -11,7 +11,9 @@
 EXTENDS Repl, Json, IOUtils
 
 CONSTANT NChunks
-Recs == ndJsonDeserialize(IOEnv.TRACE)
+\* parsed once at start-up into a TLC register (TLC re-evaluates a definition that reads a file on every reference)
+ASSUME TLCSet(7, ndJsonDeserialize(IOEnv.TRACE))
+Recs == TLCGet(7)
 
 RECURSIVE SameObs(_, _)
 SameObs(v, j) ==   \* specification value v (reified) against observed value j (integers and arrays of them)
